@@ -1110,9 +1110,12 @@ class Reaction(Object):
         context = get_context(self)
         if context:
             # put the previous stoichiometry back as it was (exact, and also
-            # possible after scaling by zero) and write the solver rows again;
-            # the bounds are reset by their own setter
+            # possible after scaling by zero), make its metabolites aware of
+            # the reaction again (a later edit may have dropped entries that
+            # were scaled to zero) and write the solver rows again; the bounds
+            # are reset by their own setter
             context(partial(self._model._populate_solver, [self]))
+            context(self._update_awareness)
             context(partial(setattr, self, "_metabolites", old_metabolites))
 
         return self
